@@ -28,7 +28,7 @@ add("C03", "injected randomness: RNG interposer serves chosen gamma/normal/unifo
 add("C04", "runtime monitor: real StateManager.compute_logw_and_logz vs independent long-double reference model on generated and recorded histories (incl. 30-70 iterations, 2e4-sample batches, one history above 2^24 mixture elements), repeated requests on one manager, a manager whose history is replaced after it answered requests, values handed over as integers / 0-d arrays / lists, metamorphic relations, FP-exception trap",
     "Held on every generated history (3e3 quick / 1e5 thorough) and on every prefix of histories recorded from real runs; an oracle decides each case, so any deviation of the formula, normalisation, order-dependence, shift-equivariance, request-order dependence or finiteness on an explored history is reported with the history as witness.",
     "Trusted: numpy long double arithmetic of the reference; tolerance 1e-9*(1+scale).")
-add("C05", "invariant at a hook on the real Reweighter.run: pool snapshot -> long-double reference ESS / logZ / weights at the recorded beta; ESS limit read at the hooked _find_beta_upper_limit and validated independently; single-step pools (incl. log-likelihood ranges up to 1e9), multi-iteration sequences through one Reweighter instance, monitored real runs with every step replayed on a fresh Reweighter (differential) and with the ESS limit injected once inside (1-2e-4, 1)",
+add("C05", "invariant at a hook on the real Reweighter.run: pool snapshot -> long-double reference ESS / logZ / weights at the recorded beta; ESS limit read at the hooked _find_beta_upper_limit and validated independently; single-step pools (incl. log-likelihood ranges up to 1e9), multi-iteration sequences through one Reweighter instance, histories whose last 20-120 iterations sit at one intermediate temperature, monitored real runs with every step replayed on a fresh Reweighter (differential) and with the ESS limit injected once inside (1-2e-4, 1)",
     "2000/50000 synthetic pools, 600/20000 growing-history sequences (directed: a narrow spike found after the pool was admissible up to beta=1) and every reweighting step of 24/400 monitored runs: monotone, bounded, ESS floor (rel 1e-9), volume mode within the ESS limit, recorded beta/logZ/ESS/weights self-consistent.",
     "Trusted: long-double reference; the ESS limit reported by the code is validated (its reference ESS >= target), not recomputed as a global supremum.")
 add("C06", "runtime monitor with injected randomness: systematic comb driven at every breakpoint +-1ulp / cell midpoint of its u0-partition via an np.random interposer, validated by an independent comb model; seeded calls must be one comb (feasible-offset interval); pooled multinomial counts and the arguments handed to np.random.choice; Resampler.run at temperatures from 5e-324 to 1 and posterior(resample=True) (with and without trimming)",
@@ -40,13 +40,13 @@ add("C07", "invariant at hooks: after Resampler.run / Mutator.run / every commit
 add("C08", "fault enumeration: kill points before every I/O call of a checkpoint save and at byte offsets inside OS-level writes, with a real BufferedWriter over the killing raw layer and the buffer size as part of the schedule (in-process engine; strace syscall injection in thorough); digests of restored state vs digest hooked at save time; resumed runs monitored (same / larger target, final checkpoint, second generation); checkpoints written by a re-used sampler object after its history was replaced",
     "Every checkpoint of save_every=1 runs in 7/32 configurations is restored and compared bitwise; resumes checked for prefix identity, numbering, cross-process call counting, schedule and postconditions; every I/O call boundary of a save plus byte offsets is a crash point in first-save and overwrite scenarios under 2-3 buffer sizes.",
     "Trusted: process death only (no power-loss semantics); sha256 digests.", category="fault_enumeration")
-add("C09", "runtime monitor: bitwise digests of paired seeded runs and of seeded resume pairs; global RNG state hashes at the exit of every library operation under three ambient seeds, on samplers built without and with random_state, and as the second call on one object; runs with neighbouring random_state values must share no particle; reseed log from the np.random interposer",
+add("C09", "runtime monitor: bitwise digests of paired seeded runs and of seeded resume pairs; global RNG state hashes at the exit of every library operation under three ambient seeds, on samplers built without and with random_state, and as the second call on one object; runs with neighbouring random_state values must share no particle; pairs evaluated through integer pools and an executor; reseed log from the np.random interposer",
     "Reproducibility decided bitwise on 11/160 construct+run pairs and 4/24 resume pairs; the reset clause decided deterministically per operation (state equality across ambient seeds is the witness) over 58-190 operation instances covering mixture fits, mode statistics, every pipeline step and the public sampler calls.",
     "Trusted: seeding with the user's random_state at construction / checkpoint load is the documented mechanism, any later reset is not.")
 add("C10", "metamorphic pairs: same seeded real run with logL and logL+c; discrete structure exact, continuous quantities to rounding, recorded logZ_t shifted by beta_t*c; mismatch must reproduce on 2 of 3 further seeds; pairs with the ESS limit injected inside (1-2e-4, 1) and pairs whose prior transform returns float32 coordinates",
     "26 (quick) / 800 (thorough) pairs over kernel x resampler x clustering x evaluation mode x metric mode x shifts in [-1e3,1e3] incl. irrational ones, shifts across logL=0 and below -700, and histories above 4096 samples.",
     "Trusted: tolerance 1e-9 on particles (RWM adaptation rounding), 1e-8 relative on weights/ESS, 1e-9(1+|c|) on the logZ shift.")
-add("C11", "runtime monitor: instrumented likelihood counts finite/-inf evaluations per warm-up batch, hull oracle on every recorded beta=0 evidence, and no record of log 1 once a zero-likelihood draw was observed; stored -inf checked at step hooks; directed warm-up batches served by the RNG interposer (chosen rows in the zero-likelihood region); final evidence by two-stage replicate rule",
+add("C11", "runtime monitor: instrumented likelihood counts finite/-inf evaluations per warm-up batch, hull oracle on every recorded beta=0 evidence, and no record of log 1 once a zero-likelihood draw was observed; stored -inf checked at step hooks; directed warm-up batches served by the RNG interposer (chosen rows in the zero-likelihood region); runs with a pool argument (1, thread pool, executor); final evidence by two-stage replicate rule",
     "Hull test is exact per warm-up iteration on 74/400 traced runs (f in 0.15..1, 2-6 warm-up iterations, directed patterns row0/last/rows01/one-random/all-but-one); final evidence judged on R=32/96 replicates per cell.",
     "Trusted: closed-form evidence of the truncated Gaussian target; Rule S thresholds. Known finding: all-zero-likelihood-batch.")
 add("C12", "runtime monitor: run() postconditions against the reference MIS model; all 16 posterior() option combinations x trimming parameters with row identity through the evaluation log; finished runs re-opened from their final checkpoint; a second run() on the same object; un-normalised likelihoods (constant of 720 ... 1e5 on logL); posterior() on a stored history of more than 2^17 rows",
@@ -64,7 +64,7 @@ add("C15", "runtime contract monitors on GaussianMixture / HierarchicalGaussianM
 add("C16", "runtime monitor: real apply_boundary_conditions/check_bounds vs exact rational (Fraction) fold on hostile and random doubles, memory layouts and index-list forms, index containers edited in place between calls, index arrays of every integer dtype in 70-300 dimensions, batches of 65537 ... 4e6 rows against their own pieces, FP-exception trap",
     "Each folded value is compared with the exact rational fold of the input double (error <= 2^-53), with idempotence, untouched-coordinate bit-identity, 1-D/2-D/Fortran/strided agreement and check_bounds equivalence; ~2e5 values quick, ~5e6 thorough plus hypothesis floats() and the repo's own suite under a contract monitor.",
     "Trusted: python fractions; the catalogue/generators decide reach.")
-add("C17", "history + executable reference model: random StateManager operation sequences vs dict-of-copies model with a hostile caller overwriting every returned array (incl. 0-d arrays, read-only views of caller-owned buffers, ragged batches); sampler-level twin runs compared bitwise (incl. a likelihood that returns a view of a reused buffer); append-only monitor on real runs",
+add("C17", "history + executable reference model: random StateManager operation sequences vs dict-of-copies model with a hostile caller overwriting every returned array (incl. 0-d arrays, read-only views of caller-owned buffers, ragged batches, save_state with every kind of exclude list); sampler-level twin runs compared bitwise (incl. a likelihood that returns a view of a reused buffer); append-only monitor on real runs",
     "After every operation the manager's public answers are compared with the reference model while every array handed to the caller is overwritten; 300 (quick) / 5000 (thorough) sequences of 40 operations plus hostile-vs-untouched twin sampler runs (incl. a zero-likelihood target) in which every committed batch is re-digested after every later iteration.",
     "Trusted: reference model (30 lines); donated inputs (copy=False, from_dict) are not judged.")
 add("C18", "runtime monitor over 3-wise covering arrays of the constructor option lattice, each row in its own process under an iteration budget, postconditions against the reference model; one-factor invalid values with call counters on the instrumented user callables; the user's callables in 13 x 5 forms (builtins, operator objects, ufunc methods, partials, instances, bound methods, lambdas)",
@@ -74,7 +74,7 @@ add("C19", "runtime contract monitors on fit_mvstud / ModeStatistics (incl. the 
     "Well-posedness and four equivariance pairs (scaling 1e-6..1e6, translation, translation by 1e7 sd, permutation) on 300 (quick) / 5000 (thorough) data sets, dof/location/SPD/Cholesky-inverse consistency at the kernel boundary, recovery on 18-72 large t samples.",
     "Trusted: rtol 1e-4 equivariance band; recovery bands nu +-25%, scale +-10%. Known finding: nu-estimate-infinite.")
 add("C20", "runtime contract monitors on effective_sample_size / compute_ess / trim_weights / volume_variation with long-double references, extreme magnitudes, near-one weight sums, repeated calls, conditioning-aware affine pairs, exact power-of-two rescaling and rigid motions of structurally degenerate pools",
-    "ESS bounds/scale/uniform, exact threshold-set trimming contract and volume-metric invariances asserted on 3000 (quick) / 1e5 (thorough) generated weight vectors (600-decade range, zeros, ties, raw weights whose squares under/overflow).",
+    "ESS bounds/scale/uniform, exact threshold-set trimming contract (ESS clause at rounding level, with directed re-requests just above a reachable ratio) and volume-metric invariances asserted on 3000 (quick) / 1e5 (thorough) generated weight vectors (600-decade range, zeros, ties, raw weights whose squares under/overflow).",
     "Trusted: long-double ESS; affine clause judged only when 1000*eps*kappa <= 1e-2.")
 
 NOT_YET = {}
